@@ -445,6 +445,16 @@ let check_M line toks =
   let get k = List.assoc_opt k fs in
   let id = match get "id" with Some x -> x | None -> "?" in
   bump "M-records"; nontrivial ("M" ^ (match get "d" with Some x -> x | None -> id));
+  (match get "d", get "fd", get "md" with
+   | Some d, Some fd, Some md ->
+     let show (p : pos) = String.concat "," [String.init 64 (fun i -> char_of_piece (List.nth p.placement i)); (if p.stm = White then "w" else "b");
+         string_of_int (int_of_cr p.rights_w); string_of_int (int_of_cr p.rights_b);
+         (match p.ep with None -> "-" | Some s -> string_of_int (int_of_n s)); dec_of_n p.half; dec_of_n p.full] in
+     let p = pos_of_desc d in
+     let f = show (flip p) and m = show (mirror p) in
+     if f <> fd then report "M" id "flip-image" f fd line;
+     if m <> md then report "M" id "mirror-image" m md line
+   | _ -> ());
   (match get "flip" with Some "ok" -> () | Some x -> report "M" id "flip" "ok" x line | None -> ());
   (match get "mirror" with Some "ok" -> bump "M-mirror" | Some "na" -> () | Some x -> report "M" id "mirror" "ok" x line | None -> ())
 let check_T line toks =
